@@ -290,6 +290,8 @@ Pack(d, vs, ps, D) ==
 (*   "LenNative"    after unpacking, the size of a nested member is         *)
 (*                  len(instance), which is computed with the host's        *)
 (*                  (64-bit) sizes whatever the pointer size                *)
+(*   "SLebU"        a signed LEB128 member is decoded as unsigned (the     *)
+(*                  per-instance copy of the field forgets its sign)        *)
 (*   "SLongU", "PackedNestAlign"  see above                                 *)
 RECURSIVE Unpack(_, _, _, _, _), DecField(_, _, _, _, _, _, _), UnpFrom(_, _, _, _, _, _, _, _, _), DecElems(_, _, _, _, _, _, _),
           TermLen(_, _, _, _, _), ImplLen(_, _, _)
@@ -337,7 +339,7 @@ DecField(d, f, bs, o, ps, prior, D) ==
                         IN IF k < 0 THEN [v |-> <<>>, n |-> 0, x |-> Len(bs) + 1]
                            ELSE [v |-> DecElems(f.t, bs, o, k, ps, eo, D), n |-> k * RawSize(f.t, ps),
                                  x |-> o + k * RawSize(f.t, ps)]
-    [] f.k = "leb"  -> LebDec(bs, o, IsSigned(f.t))
+    [] f.k = "leb"  -> LebDec(bs, o, IsSigned(f.t) /\ "SLebU" \notin D)
 UnpFrom(d, bs, base, i, pos, vals, xt, ps, D) ==
   IF i > Len(d.fs) THEN [v |-> vals, end |-> pos, x |-> xt]
   ELSE LET f == d.fs[i]
@@ -586,7 +588,9 @@ RECURSIVE HasT(_, _), HasArrOfDefs(_), HasPackedNest(_), HasLooseInPacked(_), Ha
 HasT(d, T) == \E i \in 1..Len(d.fs) : IF d.fs[i].k = "nest" THEN HasT(d.fs[i].d, T) ELSE d.fs[i].t \in T
 HasArrOfDefs(d) == \E i \in 1..Len(d.fs) : \/ (d.fs[i].n > 0 /\ (d.fs[i].k = "nest" \/ d.fs[i].td))
                                             \/ (d.fs[i].k = "nest" /\ HasArrOfDefs(d.fs[i].d))
-HasPackedNest(d) == d.packed \/ \E i \in 1..Len(d.fs) : d.fs[i].k = "nest" /\ HasPackedNest(d.fs[i].d)
+HasPackedNest(d) == \E i \in 1..Len(d.fs) : d.fs[i].k = "nest" /\ (d.fs[i].d.packed \/ HasPackedNest(d.fs[i].d))
+RECURSIVE HasSLeb(_)
+HasSLeb(d) == \E i \in 1..Len(d.fs) : (d.fs[i].k = "leb" /\ IsSigned(d.fs[i].t)) \/ (d.fs[i].k = "nest" /\ HasSLeb(d.fs[i].d))
 HasLooseInPacked(d) == \E i \in 1..Len(d.fs) : d.fs[i].k = "nest" /\ ((d.packed /\ ~d.fs[i].d.packed) \/ HasLooseInPacked(d.fs[i].d))
 RECURSIVE HasTdInPacked(_)
 HasTdInPacked(d) == \E i \in 1..Len(d.fs) : (d.packed /\ d.fs[i].td) \/ (d.fs[i].k = "nest" /\ HasTdInPacked(d.fs[i].d))
@@ -598,10 +602,12 @@ CanMatter(x) ==
     [] x = "ArrLenCount"     -> HasArrOfDefs(TheDef)
     [] x = "LenNative"       -> psz = 32 /\ HasNest(TheDef) /\ HasT(TheDef, {"l", "L", "P"})
     [] x = "PackedNestAlign" -> HasPackedNest(TheDef)
+    [] x = "PackedTopAlign"  -> TheDef.packed
+    [] x = "SLebU"           -> HasSLeb(TheDef)
     [] x = "PadAtEnd"        -> HasLoose(TheDef)
     [] x \in {"UnionNoPad", "UnionIdxNative"} -> HasUnion(TheDef)
-LayoutDevs == {D \in {{"PackedNestAlign"}} : \A x \in D : CanMatter(x)}
-UnpDevNames == {x \in {"AbsAlign", "ArrLenCount", "LenNative", "SLongU", "PackedNestAlign"} : CanMatter(x)}
+LayoutDevs == IF HasPackedNest(TheDef) \/ TheDef.packed THEN {{"PackedNestAlign"}} ELSE {}
+UnpDevNames == {x \in {"AbsAlign", "ArrLenCount", "LenNative", "SLongU", "SLebU", "PackedNestAlign"} : CanMatter(x)}
 PackDevNames == {x \in {"PadAtEnd", "UnionNoPad", "UnionIdxNative", "PackedNestAlign"} : CanMatter(x)}
 SetToSeq(S) == LET RECURSIVE F(_) F(T) == IF T = {} THEN <<>> ELSE LET x == CHOOSE x \in T : TRUE IN <<x>> \o F(T \ {x}) IN F(S)
 (* offsets in the shape of StructCore.offsets(): one <<offset, size>> per field, and for a bitfield *)
@@ -629,7 +635,8 @@ Case ==
       valsDev |-> LET U    == [D \in (SUBSET UnpDevNames) \ {{}} |-> Unpack(TheDef, data, 0, psz, D)]
                       cands == {D \in DOMAIN U : U[D].v # exp}
                       \* keep, for every distinct wrong result, the smallest deviation sets producing it
-                      minimal == {D \in cands : ~\E E \in cands : E # D /\ E \subseteq D /\ U[E].v = U[D].v}
+                      minimal == {D \in cands : ~\E E \in cands : E # D /\ E \subseteq D /\ U[E].v = U[D].v
+                                                                   /\ (U[E].x > Len(data)) = (U[D].x > Len(data))}
                   IN SetToSeq({[devs |-> SetToSeq(D), vals |-> U[D].v, oob |-> U[D].x > Len(data),
                                 trig |-> UnpTrig(TheDef, U[D].v, psz, TRUE)] : D \in minimal}),
       unpTrig |-> UnpTrig(TheDef, exp, psz, TRUE),
